@@ -4,6 +4,7 @@ package vc
 // with lazily declared sorts, heap keys and obligations.
 
 import (
+	"os"
 	"fmt"
 	"go/types"
 
@@ -73,6 +74,7 @@ type Unit struct {
 	entryHeld map[string][]string
 	witnesses []string
 	collectW  bool
+	beforeSeen  map[string]bool // callees named in 'before' clauses that were actually met
 	hypsV       []hyp     // assumed forallv (typed, unbounded) clauses
 	keyCands    []keyCand // map keys mentioned while translating the current goal
 	collectKeys bool
@@ -426,7 +428,12 @@ func (o *Obligation) scriptFor(withModel, instancesOnly bool, goal string) strin
 // without the quantified invariant / callee-post assumptions (their instances at the goal's
 // skolem constants stay). Variants 1 and 2 assume less, so their unsat answers are as good.
 func (o *Obligation) scriptV(withModel bool, variant int, goal string) string {
-	instancesOnly := variant == 2
+	// variants: 0 full, 1 light (no heap typing axioms), 2 inst (no typing, quantified hypotheses
+	// replaced by their instances), 3 inst + the additional instance set (neighbour points, map
+	// keys), 4 full + the additional instance set
+	instancesOnly := variant == 2 || variant == 3
+	dropTyping := variant >= 1 && variant <= 3
+	plus := variant >= 3
 	var sb strings.Builder
 	sb.WriteString("; obligation " + o.Name + "\n; " + o.Desc + "\n; at " + o.Pos + "\n")
 	if withModel {
@@ -437,13 +444,19 @@ func (o *Obligation) scriptV(withModel bool, variant int, goal string) string {
 		if instancesOnly && o.Unit.quantHypLines[i] {
 			continue
 		}
-		if variant >= 1 && o.Unit.typingLines[i] {
+		if dropTyping && o.Unit.typingLines[i] {
 			continue
 		}
 		sb.WriteString(l)
 		sb.WriteByte('\n')
 	}
 	for _, l := range o.Extra {
+		if strings.HasPrefix(l, plusMark) {
+			if !plus {
+				continue
+			}
+			l = l[len(plusMark):]
+		}
 		sb.WriteString(l)
 		sb.WriteByte('\n')
 	}
@@ -478,7 +491,7 @@ func (u *Unit) refTermsOf(term string, t types.Type, depth int) []string {
 	if isRefLike(t) {
 		return []string{refOf(term, t)}
 	}
-	if st, ok := t.Underlying().(*types.Struct); ok && depth < 3 {
+	if st, ok := t.Underlying().(*types.Struct); ok && depth < 3 && os.Getenv("GOVC_NO_STRUCTALLOC") == "" {
 		if _, isIfc := t.Underlying().(*types.Interface); isIfc {
 			return nil
 		}
@@ -570,4 +583,16 @@ func (u *Unit) strEq(a, b string) string {
 type keyCand struct {
 	typ  types.Type
 	term string
+}
+
+// plusMark prefixes the extra assertions that only the "plus" variants of an obligation use
+const plusMark = "\x01"
+
+func (o *Obligation) HasPlus() bool {
+	for _, l := range o.Extra {
+		if strings.HasPrefix(l, plusMark) {
+			return true
+		}
+	}
+	return false
 }
